@@ -7,6 +7,7 @@ import SocVerif.Driver.RegD
 import SocVerif.Driver.SramD
 import SocVerif.Driver.ArbD
 import SocVerif.Driver.BridgeD
+import SocVerif.Driver.BuilderD
 
 def main (args : List String) : IO UInt32 := do
   match args with
@@ -20,4 +21,5 @@ def main (args : List String) : IO UInt32 := do
   | ["sram"] => SramD.main; return 0
   | ["arbiter"] => ArbD.main; return 0
   | ["bridge"] => BridgeD.main; return 0
+  | ["builder"] => BuilderD.main; return 0
   | _ => IO.eprintln "usage: driver <mux|mmap|...>"; return 2
